@@ -272,7 +272,7 @@ pub fn check_program(prog: &Program, seed: u64, thorough: bool, rep: &mut Report
 
 pub fn run(p: &Params, rep: &mut Report) {
     let mut rng = p.rng(14);
-    let n = p.size(1200, 30_000);
+    let n = p.size(8000, 80_000);
     for _ in 0..n {
         let spec = gen_wellformed(&mut rng, p.thorough);
         let seed = rng.next();
@@ -287,7 +287,7 @@ pub fn run(p: &Params, rep: &mut Report) {
             }
         }
     }
-    let np = p.size(10, 120);
+    let np = p.size(40, 400);
     for_programs(p, rep, 41, np, &STD_WEIGHTS, (15, 40), |prog, seed, rep| check_program(prog, seed, p.thorough, rep));
 }
 
